@@ -191,20 +191,32 @@ const ALL_SHAPES: [Shape; 8] = [
     Shape::AllSame,
 ];
 
-/// the D7 family: a long east-west strip (so that the leaf groups are long thin boxes) and a query just
-/// beside the middle of one group: the corner minimum is far larger than the distance to the strip
+/// the D7 family: a long strip just on one side of the equator (or of the zero meridian), a query just
+/// on the other side beside the middle of the strip, and a compact cluster a little further away on the
+/// query's side. The Z-order sorts by the sign bits first, so strip and cluster fall into different
+/// leaf groups; the strip's groups are long thin boxes whose corner minimum is far larger than the
+/// distance to the strip, so the cluster is emitted before the strip's nearest elements.
 fn d7_case(rng: &mut Rng, n: usize) -> Case {
-    let lat = rng.range(-40_000_000, 40_000_000);
-    let lon0 = rng.range(-120_000_000, 0);
-    let len = *rng.pick(&[20_000_000i64, 50_000_000, 100_000_000]);
+    let vertical = rng.chance(1, 3); // strip along a meridian instead of along the equator
+    let len = *rng.pick(&[20_000_000i64, 50_000_000, 80_000_000]);
+    let a0 = rng.range(1_000_000, 8_000_000); // strip runs from a0 to a0+len along the long axis
+    let len = if vertical { len.min(70_000_000) } else { len };
     let thick = *rng.pick(&[0i64, 10, 1_000]);
-    let mut pts = Vec::with_capacity(n);
-    for _ in 0..n {
-        pts.push(clamp_pt(lat + rng.range(0, thick), lon0 + rng.range(0, len)));
-    }
     let off = *rng.pick(&[100_000i64, 20_000, 500_000]);
-    let qlon = lon0 + rng.range(len / 8, len - len / 8);
-    let q = clamp_pt(lat + thick + off, qlon);
+    let n_cluster = (n / 3).max(1);
+    let n_strip = n - n_cluster;
+    let mk = |across: i64, along: i64| if vertical { clamp_pt(along, across) } else { clamp_pt(across, along) };
+    let mut pts = Vec::with_capacity(n);
+    for _ in 0..n_strip {
+        pts.push(mk(off / 2 + rng.range(0, thick), a0 + rng.range(0, len)));
+    }
+    let q_along = a0 + rng.range(len / 2, len - len / 5);
+    let q = mk(-off / 2, q_along);
+    let spread = off / 2;
+    for _ in 0..n_cluster {
+        pts.push(mk(-off / 2 - 3 * off - rng.range(0, spread), q_along + rng.range(-spread, spread)));
+    }
+    rng.shuffle(&mut pts);
     make_case("d7-long-box", q, &pts)
 }
 
@@ -276,7 +288,7 @@ fn generate(rng: &mut Rng, tier: Tier, cases: &mut Vec<Case>) {
     // --- D7: long boxes with the query beside them
     let n_d7 = if thorough { 80 } else { 10 };
     for _ in 0..n_d7 {
-        let n = 1000 + rng.below(2600) as usize;
+        let n = 1900 + rng.below(2600) as usize;
         cases.push(d7_case(rng, n));
     }
     // --- three levels of tree nodes (thorough only: 27000 = 30 * 900 elements fill one second-level node)
